@@ -68,7 +68,51 @@ def explore_stabilizer(code, cfg, col, var='a'):
                     ent.append((ks, v))
                 ps.append((p.pc, ent, None))
         out.append((avars, list(eng.base), ps, len(coords)))
+        validate_encoding(code, cfg, col, avars, ps, coords)
     return out
+
+
+def validate_encoding(code, cfg, col, avars, ps, coords, cap=20000):
+    """Translation validation of the symbolic exploration: every (or, beyond `cap` substitutions, a
+    deterministic sample of) concrete stabilizer location is substituted into the path conditions --
+    exactly one path must hold -- and into that path's key terms; the resulting operator must be what the
+    REAL get_stabilizer of a fresh, unshadowed object returns there.  A mismatch means the encoding (proxies,
+    shadows, hashing of symbolic keys) misrepresents the code: harness error, never a verdict."""
+    import random
+    from symx.core import HarnessError
+    fresh = common.make_code(cfg)
+    locs = list(coords)
+    if len(locs) * max(1, len(ps)) > cap:
+        locs = random.Random(len(locs)).sample(locs, max(8, cap // max(1, len(ps))))
+    n_ok = 0
+    for loc in locs:
+        sub = [(v, z3.IntVal(int(x))) for v, x in zip(avars, loc)]
+        hit = [i for i, (pc_, ent, exc) in enumerate(ps)
+               if z3.is_true(z3.simplify(z3.substitute(z3_and(pc_), *sub)))]
+        if len(hit) != 1:
+            raise HarnessError(f'{cfg}: {len(hit)} paths hold at stabilizer location {loc} (expected exactly 1)')
+        pc_, ent, exc = ps[hit[0]]
+        try:
+            want = {tuple(int(y) for y in q): p_ for q, p_ in fresh.get_stabilizer(tuple(loc)).items()}
+            wexc = None
+        except Exception as e:          # noqa
+            want, wexc = None, e
+        if exc is not None or wexc is not None:
+            if type(exc) is not type(wexc):
+                raise HarnessError(f'{cfg}: at {loc} the symbolic path ends with {type(exc).__name__}, the real '
+                                   f'call with {type(wexc).__name__}')
+            n_ok += 1
+            continue
+        got = {}
+        for ks, letter in ent:
+            key = tuple(z3.simplify(z3.substitute(k, *sub)).as_long() for k in ks)
+            if key in got:
+                raise HarnessError(f'{cfg}: duplicate key {key} in the canonical symbolic operator at {loc}')
+            got[key] = letter
+        if got != want:
+            raise HarnessError(f'{cfg}: symbolic get_stabilizer at {loc} gives {got}, the real one {want}')
+        n_ok += 1
+    col.stats['encoding_validated_locations'] = col.stats.get('encoding_validated_locations', 0) + n_ok
 
 
 def keys_equal(ka, kb):
